@@ -16,6 +16,15 @@ CHECKS = {
     "C06": dict(tech="TLC trace validation of traced-Merlin operation logs of both roles against the specification's operation schedule (order-preserving embedding), RoleSync invariant",
                 text="Every transcript operation of prover and verifier (label, payload identity, order, challenges, forks, RNG construction) recorded from the real code is matched by TLC against the schedule the specification derives for the statement and proof shape; returned transcripts must drive equal follow-up challenges.",
                 note="payload identity by value on toy curves; extra identical appends tolerated (C18 demands equality)", ref="5 C06"),
+    "C10": dict(tech="TLC model checking of the inner-product argument (MC_IPP: exhaustive over F_7, sampled at P=31723 for k<=7) + TLC trace validation of create/verify on toy curves + replay of TLC-chosen instance patterns on the real curves",
+                text="Completeness, equivalence with explicit folding, rejection classes and the unrolled-first-round identity are model-checked; every create and verify run on toy curves through the guarded re-export is recomputed by TLC field by field (L, R, a, b, round count, verdict, transcript operations); the same instance patterns run on the 256-bit curves with ideal verdicts.",
+                note="k <= 5 quick / 7 thorough; toy exactness needs P^2 < 2^31; zero challenges on toy curves are degenerate events", ref="5 C10"),
+    "C12": dict(tech="TLC enumeration of all capacity histories and views (MC_Gens: HistoryIndependent, ViewPartyMajor) + execution of every history and view on the real generator tables + pinned digests",
+                text="Every history of new/increase_capacity/serialise-deserialise/clone within the bounds and every (n, m) view is executed on the real tables and compared entry by entry with the abstract chain; distinctness, non-identity, prime order and bit-for-bit digests from the reference revision are checked on large tables.",
+                note="capacities <= 4 (6), parties <= 2 (3), <= 3 (4) operations; digests pinned in fixtures/gens_digests.json", ref="5 C12"),
+    "C13": dict(tech="TLC model checking of the Pedersen laws over F_7 + TLC trace validation of every (v, r) on toy7/toy79 + law instances on the real curves from TLC-chosen value-class patterns",
+                text="Commit(v,r) = v*B + r*B~ is recomputed by TLC for every pair of the toy fields on three base pairs (and Prover::commit with its transcript append); on the 256-bit curves the definition and the linearity laws are checked against independent evaluations on value classes 0, 1, -1, > 2^64, order-2, random.",
+                note="toy: exact by discrete logs; real: arkworks group arithmetic trusted", ref="5 C13"),
     "C15": dict(tech="TLC model checking of LCDenotation over all expression trees (MC_LC) + replay of every tree built with the real operators (accept at the value, reject off by one) + TLC trace validation on toy curves",
                 text="Every expression tree up to the depth bound is enumerated by TLC, the specification's transcription of each operator impl is checked against the tree's meaning, and each tree is built with the real operators and constrained to its value (must verify) and to its value plus one (must not) on all curves.",
                 note="depth 1 (all leaf kinds) quick, depth 2 thorough; real-curve constants computed by the harness evaluator, which TLC cross-checks on toy runs", ref="5 C15"),
